@@ -1221,6 +1221,10 @@ val match_args : char list -> expected list -> node list -> char list list
 
 val apply_spread_args : node -> bool
 
+val has_dup_str : char list list -> bool
+
+val operand_temps : char list -> node list -> char list list
+
 val shape_issues : char list -> node -> char list list
 
 val inert : node -> bool
@@ -1268,3 +1272,62 @@ val wf_all : node -> bool
 val has_kind : kind -> node -> bool
 
 val has_optchain : node -> bool
+
+type value =
+| VUndef
+| VStr of char list
+| VObj of nat
+
+type expr =
+| Lit of value
+| Var of char list
+| Tmp of nat
+| Add of expr * expr
+| CallE of expr * expr
+| Par of expr
+| Hoist2 of nat * expr * nat * expr * expr
+| Hoist1 of nat * expr * expr
+| Hook of expr * expr list
+
+val is_triv : expr -> bool
+
+val is_lit0 : expr -> bool
+
+type act =
+| Keep0
+| Stay
+| Hoist
+
+val left_act : expr -> expr -> act
+
+val right_act : expr -> expr -> act
+
+val wrap : (nat * expr) list -> expr -> expr
+
+val rw_add : expr -> expr -> nat -> expr * nat
+
+val rw : expr -> nat -> expr * nat
+
+val temp_index_from : char list -> char list -> nat -> nat -> nat option
+
+val temp_index : char list -> char list -> nat option
+
+val plain_arg : node -> node option
+
+val map_opt : ('a1 -> 'a2 option) -> 'a1 list -> 'a2 list option
+
+val abstract : char list -> char list -> nat -> node -> expr option
+
+val value_eqb : value -> value -> bool
+
+val expr_eqb : expr -> expr -> bool
+
+val last_return : node -> node option
+
+type tie_result =
+| TieNotCore
+| TieNoOutput
+| TieAgree
+| TieDiffer
+
+val sem_tie : char list -> char list -> node -> node -> tie_result
